@@ -110,6 +110,9 @@ func panicSite(p any) string {
 	return s
 }
 
+// array-valued member names seen in any document so far (forward and return files name different ones)
+var knownArrayKeys = map[string]bool{"checks": true, "returns": true, "bundles": true}
+
 // jsonMutations: every single-position mutation of a JSON document (null, absent, wrong type, [null]).
 func jsonMutations(doc any) []struct {
 	desc string
@@ -190,6 +193,94 @@ func jsonMutations(doc any) []struct {
 		}
 		return sb.String()
 	}
+	// members that are arrays somewhere in the document, set to [null] in every object that has an array member of its
+	// own but not this one (the "returns" of a bundle of forward items, the "checks" of a bundle of returns, ...)
+	arrayKeys := map[string]bool{}
+	var collect func(v any)
+	collect = func(v any) {
+		switch x := v.(type) {
+		case map[string]any:
+			for k, c := range x {
+				if _, ok := c.([]any); ok {
+					arrayKeys[k] = true
+				}
+				collect(c)
+			}
+		case []any:
+			for _, c := range x {
+				collect(c)
+			}
+		}
+	}
+	collect(doc)
+	for k := range arrayKeys {
+		knownArrayKeys[k] = true
+	}
+	var aks []string
+	for k := range knownArrayKeys {
+		aks = append(aks, k)
+	}
+	sort.Strings(aks)
+	for _, path := range paths {
+		c := clone()
+		cur := c
+		okPath := true
+		for _, pp := range path {
+			switch k := pp.(type) {
+			case string:
+				m, ok := cur.(map[string]any)
+				if !ok {
+					okPath = false
+				} else {
+					cur = m[k]
+				}
+			case int:
+				a, ok := cur.([]any)
+				if !ok || k >= len(a) {
+					okPath = false
+				} else {
+					cur = a[k]
+				}
+			}
+			if !okPath {
+				break
+			}
+		}
+		obj, isObj := cur.(map[string]any)
+		if !okPath || !isObj {
+			continue
+		}
+		hasArray := false
+		for _, v := range obj {
+			if a, ok := v.([]any); ok && len(a) > 0 {
+				hasArray = true
+			}
+		}
+		if !hasArray {
+			continue
+		}
+		for _, k := range aks {
+			if v, present := obj[k]; present && v != nil {
+				continue
+			}
+			c2 := clone()
+			cur2 := c2
+			for _, pp := range path {
+				switch kk := pp.(type) {
+				case string:
+					cur2 = cur2.(map[string]any)[kk]
+				case int:
+					cur2 = cur2.([]any)[kk]
+				}
+			}
+			cur2.(map[string]any)[k] = []any{nil}
+			b, _ := json.Marshal(c2)
+			out = append(out, struct {
+				desc string
+				doc  []byte
+			}{"sibling-array-[null] " + k + " at " + pstr(path), b})
+		}
+	}
 	for _, path := range paths {
 		muts := []struct {
 			name string
@@ -213,7 +304,9 @@ func jsonMutations(doc any) []struct {
 				return map[string]any{}, true
 			}},
 			{"[null]", func(cur any) (any, bool) {
-				if _, ok := cur.([]any); ok {
+				// an array - or a member that is null in this document and may be an array in another (the "returns" of a
+				// bundle of forward items) - holding a single null
+				if _, ok := cur.([]any); ok || cur == nil {
 					return []any{nil}, true
 				}
 				return cur, true
